@@ -136,6 +136,9 @@ func Finish(ev *Evidence, vs []Violation) int {
 	}
 	ev.Violations = unknown
 	ev.Seed = Seed()
+	if os.Getenv("VERIF_EVIDENCE_MERGE") == "1" {
+		mergeEvidence(ev, filepath.Join(root, "evidence", ev.PropertyID+".json"))
+	}
 	sort.Strings(ev.Known)
 	os.MkdirAll(filepath.Join(root, "evidence"), 0o755)
 	b, _ := json.MarshalIndent(ev, "", " ")
@@ -178,4 +181,55 @@ func ModelCheckingCoverage(st *Stats, extra map[string]any) map[string]any {
 		c["samples"] = []any{"(initial state only)"}
 	}
 	return c
+}
+
+// mergeEvidence folds the evidence an earlier engine wrote for the same property (same check
+// command, several engines) into ev: counts are added, samples concatenated, and each engine's own
+// coverage is kept under "parts".
+func mergeEvidence(ev *Evidence, path string) {
+	b, err := os.ReadFile(path)
+	if err != nil {
+		return
+	}
+	var prev Evidence
+	if json.Unmarshal(b, &prev) != nil || prev.PropertyID != ev.PropertyID {
+		return
+	}
+	parts, _ := prev.Coverage["parts"].([]any)
+	if parts == nil {
+		parts = []any{prev.Coverage}
+	}
+	own := map[string]any{}
+	for k, v := range ev.Coverage {
+		own[k] = v
+	}
+	parts = append(parts, own)
+	num := func(v any) int {
+		switch x := v.(type) {
+		case float64:
+			return int(x)
+		case int:
+			return x
+		}
+		return 0
+	}
+	for _, k := range []string{"states", "transitions", "traces_validated_against_impl", "oracle_comparisons", "evaluations", "distinct_nontrivial", "distinct_outcomes"} {
+		if _, ok := prev.Coverage[k]; ok || ev.Coverage[k] != nil {
+			ev.Coverage[k] = num(prev.Coverage[k]) + num(ev.Coverage[k])
+		}
+	}
+	ps, _ := prev.Coverage["samples"].([]any)
+	es, _ := ev.Coverage["samples"].([]any)
+	ev.Coverage["samples"] = append(ps, es...)
+	pe, _ := prev.Coverage["exhaustive"].(bool)
+	ee, _ := ev.Coverage["exhaustive"].(bool)
+	ev.Coverage["exhaustive"] = pe && ee
+	for _, k := range []string{"outcomes", "scenarios", "states_per_depth", "alphabet", "cap_hit", "frontier_left", "max_depth_completed"} {
+		delete(ev.Coverage, k)
+	}
+	ev.Coverage["parts"] = parts
+	ev.Assumptions = append(prev.Assumptions, ev.Assumptions...)
+	ev.Wall += prev.Wall
+	ev.Violations += prev.Violations
+	ev.Known = append(prev.Known, ev.Known...)
 }
